@@ -118,13 +118,8 @@ def indexOf (saved : List String) (k : String) : Option Nat :=
   let i := saved.idxOf k
   if i < saved.length then some i else none
 
-/-- insertion into a list sorted by `le`, after all elements that are `le` (stable) -/
-def insertBy {α} (le : α → α → Bool) (x : α) : List α → List α
-  | [] => [x]
-  | y :: r => if le y x then y :: insertBy le x r else x :: y :: r
-
-/-- stable sort (what `sort.SliceStable` computes, whatever its algorithm) -/
-def stableSort {α} (le : α → α → Bool) (l : List α) : List α := l.foldr (insertBy le) []
+/-- stable sort (what `sort.SliceStable` computes, whatever its algorithm): core Lean's stable merge sort -/
+def stableSort {α} (le : α → α → Bool) (l : List α) : List α := l.mergeSort le
 
 /-- object order: `objectOrder[id]` of a Go map — a missing key reads as 0 -/
 def objIdx (saved : List String) (k : String) : Nat := (indexOf saved k).getD 0
